@@ -962,4 +962,138 @@ theorem run_transparent (cfg : Config) (hR : Repaired13 cfg) (hmax : cfg.maxBuff
   have hrs : cfg.off.readSize = cfg.readSize := rfl
   rw [hrs]
   exact (reads_transparent cfg hR hmax _ St.init [] [] rfl).2
+theorem seqLoop_noDropped (cfg : Config) : ∀ (f : Nat) (buf : Bytes) (inTx : Bool),
+    ∀ a ∈ (seqLoop cfg f buf inTx).1, a.isDropped = false := by
+  intro f
+  induction f with
+  | zero => intro buf inTx a ha; simp [seqLoop] at ha
+  | succ f ih =>
+    intro buf inTx a ha
+    rw [seqLoop] at ha
+    cases hfp : fastPathC cfg inTx buf with
+    | get k t =>
+      rw [hfp] at ha
+      simp only [List.mem_cons] at ha
+      cases ha with
+      | inl h => rw [h]; rfl
+      | inr h => exact ih _ _ a h
+    | set k v t =>
+      rw [hfp] at ha
+      simp only [List.mem_cons] at ha
+      cases ha with
+      | inl h => rw [h]; rfl
+      | inr h => exact ih _ _ a h
+    | needMore => rw [hfp] at ha; simp at ha
+    | crash => rw [hfp] at ha; simp at ha; rw [ha]; rfl
+    | notFast =>
+      rw [hfp] at ha
+      simp only [] at ha
+      cases hout : (parseG cfg.codec cfg.env buf).out with
+      | ok v k =>
+        rw [hout] at ha
+        simp only [] at ha
+        split at ha
+        · simp at ha; rw [ha]; rfl
+        · simp only [List.mem_cons] at ha
+          cases ha with
+          | inl h => rw [h]; rfl
+          | inr h => exact ih _ _ a h
+      | incomplete _ => rw [hout] at ha; simp at ha
+      | error _ => rw [hout] at ha; simp at ha; rw [ha]; rfl
+      | crash _ => rw [hout] at ha; simp at ha; rw [ha]; rfl
+
+theorem batchActs_noDropped (cfg : Config) (hrep : cfg.repaired = true) (fs : List Val) :
+    ∀ a ∈ batchActs cfg fs, a.isDropped = false := by
+  intro a ha
+  unfold batchActs at ha
+  split at ha
+  · simp at ha; obtain ⟨g, _, hg⟩ := ha; rw [← hg]; rfl
+  · simp [hrep] at ha; obtain ⟨g, _, hg⟩ := ha; rw [← hg]; rfl
+
+theorem onRead_noDropped (cfg : Config) (hrep : cfg.repaired = true) (st : St) (chunk : Bytes) :
+    ∀ a ∈ (onRead cfg st chunk).2, a.isDropped = false := by
+  intro a ha
+  unfold onRead at ha
+  split at ha
+  · simp at ha
+  · split at ha
+    · simp at ha; rw [ha]; rfl
+    · simp only [] at ha
+      cases hg : batchGate cfg st.inTx ((st.buf ++ chunk).length + 1) (st.buf ++ chunk) with
+      | none => rw [hg] at ha; simp at ha; rw [ha]; rfl
+      | some ab =>
+        obtain ⟨acts, b⟩ := ab
+        rw [hg] at ha
+        simp only [List.mem_append] at ha
+        cases ha with
+        | inr h => exact seqLoop_noDropped cfg _ _ _ a h
+        | inl h =>
+          unfold batchGate at hg
+          split at hg
+          · cases h1 : collectGetC cfg ((st.buf ++ chunk).length + 1) (st.buf ++ chunk) with
+            | none => rw [h1] at hg; simp at hg
+            | some gb =>
+              obtain ⟨gets, b1⟩ := gb
+              rw [h1] at hg
+              simp only [] at hg
+              split at hg
+              · cases h2 : collectSetC cfg ((st.buf ++ chunk).length + 1) b1 with
+                | none => rw [h2] at hg; simp at hg
+                | some sb =>
+                  obtain ⟨sets, b2⟩ := sb
+                  rw [h2] at hg
+                  simp at hg
+                  rw [← hg.1] at h
+                  simp only [List.mem_append] at h
+                  cases h with
+                  | inl h => exact batchActs_noDropped cfg hrep _ a h
+                  | inr h => exact batchActs_noDropped cfg hrep _ a h
+              · simp at hg
+                rw [← hg.1] at h
+                exact batchActs_noDropped cfg hrep _ a h
+          · simp at hg
+            rw [hg.1] at h
+            simp at h
+
+theorem run_noDropped (cfg : Config) (hrep : cfg.repaired = true) (segs : List Bytes) :
+    ∀ a ∈ run cfg segs, a.isDropped = false := by
+  unfold run feedSegs
+  generalize (segs.flatMap (fun s => splitReads cfg.readSize s.length s)) = chunks
+  have : ∀ (chunks : List Bytes) (st : St) (acts : List Action), (∀ a ∈ acts, a.isDropped = false) →
+      ∀ a ∈ (chunks.foldl (fun (acc : St × List Action) c => let (s', a) := onRead cfg acc.1 c; (s', acc.2 ++ a)) (st, acts)).2,
+        a.isDropped = false := by
+    intro chunks
+    induction chunks with
+    | nil => intro st acts h; simpa using h
+    | cons c cs ih =>
+      intro st acts h
+      simp only [List.foldl_cons]
+      apply ih
+      intro a ha
+      simp only [List.mem_append] at ha
+      cases ha with
+      | inl ha => exact h a ha
+      | inr ha => exact onRead_noDropped cfg hrep st c a ha
+  exact this chunks St.init [] (by simp)
+
+theorem noPath_execAll (cmds : List Cmd) : (execAll cmds).map Action.noPath = execAll cmds := by
+  simp [execAll, Action.noPath, Function.comp_def]
+
+theorem replies_noPath : ∀ (acts : List Action) (s : ExSt), replies s (acts.map Action.noPath) = replies s acts := by
+  intro acts
+  induction acts with
+  | nil => intro s; rfl
+  | cons a as ih =>
+    intro s
+    cases a <;> simp [Action.noPath, replies, ih]
+
+theorem hasCrash_noPath : ∀ (acts : List Action), hasCrash (acts.map Action.noPath) = hasCrash acts := by
+  intro acts
+  induction acts with
+  | nil => rfl
+  | cons a as ih => cases a <;> simp [Action.noPath, hasCrash, ih]
+
+theorem DeadCfg.off (cfg : Config) (hrep : cfg.repaired = true) : DeadCfg cfg.off :=
+  DeadCfg.ofOff ⟨hrep, rfl⟩
+
 end RedisVerif.Conn
